@@ -519,6 +519,7 @@ async fn gated(rep: &Report, rng: &mut Rng, next_seq: &mut u32, rounds: u64) {
     let mut made: Vec<Made> = Vec::new();
     let mut cleanups = 0u32;
     let r = 0u8;
+    let mut misses = 0u32;
     async fn req(map: &mut RemoteMap, made: &mut Vec<Made>, next_seq: &mut u32, r: u8) {
         *next_seq += 1;
         let seq = *next_seq;
@@ -528,13 +529,34 @@ async fn gated(rep: &Report, rng: &mut Rng, next_seq: &mut u32, rounds: u64) {
         made.push(Made { seq, r, with_addr: true, rx: Some(rx), reply: Reply::Pending });
     }
     for i in 0..rounds {
+        if misses >= 12 {
+            // each miss costs a 5 s wait: bound the time spent (the required minimum of imposed
+            // rounds decides whether the run observed enough)
+            rep.note("gated mode stopped early after 12 gate misses");
+            break;
+        }
         gate::arm(PAUSE_CLOSE, 1);
         req(&mut map, &mut made, next_seq, r).await;
-        let held = tokio::task::block_in_place(|| gate::wait_held(PAUSE_CLOSE, Duration::from_secs(5)));
+        // wait for the instance to be held; meanwhile drive the map like the socket actor does
+        // (an instance that was already past the pause point when the gate was armed stops with
+        // this round's request as leftover, and only `cleanup()` restarts the remote)
+        let t_wait = Instant::now();
+        let mut held = false;
+        while t_wait.elapsed() < Duration::from_secs(5) {
+            if gate::held(PAUSE_CLOSE) > 0 {
+                held = true;
+                break;
+            }
+            if n0_future::future::poll_once(map.cleanup()).await.is_some() {
+                cleanups += 1;
+            }
+            tokio::task::yield_now().await;
+        }
         if !held {
             // a late arrival must not stay blocked (it would hold every later request back)
             gate::reset();
             rep.inconclusive("close-gate-not-reached");
+            misses += 1;
             rep.note(format!("gate miss in round {i}: last events {:?}", ev_lines(&gate::events()).into_iter().rev().take(4).collect::<Vec<_>>()));
             collect(&mut map, &mut made, Duration::from_secs(30)).await;
             continue;
